@@ -11,6 +11,7 @@ import (
 	"testing"
 	"time"
 
+	"github.com/bokysan/socketace/v2/internal/socketace"
 	"github.com/bokysan/socketace/v2/internal/zzverif/vlib"
 	"pgregory.net/rapid"
 )
@@ -557,4 +558,73 @@ func TestConcurrentTransfers(t *testing.T) {
 			rt.Fatalf("C01 concurrent %+v: %s", d, problem)
 		}
 	})
+}
+
+// TestAgedSession: fidelity does not depend on the age of the connection. With the session negotiation's time limit (an
+// exported variable) lowered from 30 s to 2 s, every carrier moves 100000 bytes each way over one logical connection,
+// leaves it idle until the limit has passed and moves another 100000 bytes each way over the same connection.
+func TestAgedSession(t *testing.T) {
+	old := socketace.HandshakeTimeout
+	socketace.HandshakeTimeout = 2 * time.Second
+	defer func() { socketace.HandshakeTimeout = old }()
+	var todo []config
+	for _, c := range configs {
+		if c.carrier != vlib.CarDNS { // the DNS pair is process-wide
+			todo = append(todo, c)
+		}
+	}
+	problems := make([]string, len(todo))
+	skipped := make([]bool, len(todo))
+	var wg sync.WaitGroup
+	for i, c := range todo {
+		wg.Add(1)
+		go func(i int, c config) {
+			defer wg.Done()
+			tgt := vlib.NewTarget("data", vlib.EchoHandler)
+			defer tgt.Close()
+			p, err := vlib.StartPair(pairConfig(c, tgt, false))
+			if err != nil {
+				skipped[i] = true
+				return
+			}
+			defer p.Close()
+			app, err := p.Dial("data")
+			if err != nil {
+				problems[i] = "dial: " + err.Error()
+				return
+			}
+			defer app.Close()
+			for phase := 0; phase < 2; phase++ {
+				data := vlib.PRF(uint64(300+10*i+phase), 0, 100000)
+				werr := make(chan error, 1)
+				go func() {
+					app.SetWriteDeadline(time.Now().Add(30 * time.Second))
+					_, err := app.Write(data)
+					werr <- err
+				}()
+				got, rerr := vlib.ReadFullTimeout(app, len(data), 30*time.Second)
+				if off := vlib.FirstDiff(got, data); off != -1 {
+					problems[i] = fmt.Sprintf("transfer %d (the connection is %s old): %d of %d echoed bytes came back, first difference at %d (%v; write: %v)", phase+1, []string{"new", "2.6 s"}[phase], len(got), len(data), off, rerr, <-werr)
+					return
+				}
+				<-werr
+				if phase == 0 {
+					time.Sleep(2600 * time.Millisecond)
+				}
+			}
+		}(i, c)
+	}
+	wg.Wait()
+	for i, c := range todo {
+		if skipped[i] {
+			vlib.Rec.Inconclusive("setup")
+			continue
+		}
+		d := map[string]interface{}{"config": c.name, "idle_s": 2.6, "negotiation_limit_s": 2, "bytes_each_way_per_transfer": 100000}
+		vlib.Rec.Case("aged-session "+c.name, true, []string{"cfg:" + c.name, "aged-session"}, func() interface{} { return d })
+		if problems[i] != "" {
+			vlib.Rec.Violation(map[string]interface{}{"property": "C01", "aged_session_case": d, "problem": problems[i]})
+			t.Errorf("C01 aged session %s: %s", c.name, problems[i])
+		}
+	}
 }
